@@ -469,7 +469,8 @@ fn draw_cfg(rng: &mut Rng, tier: Tier) -> Cfg {
         uniq_pct: *rng.pick(&[0u64, 0, 20, 50, 100]),
         append_pct: *rng.pick(&[0u64, 30, 70, 100]),
         dup_pct: *rng.pick(&[0u64, 2, 5, 15]),
-        cadence: *rng.pick(&[2usize, 5, 10, 30, 100, 300]),
+        // at most ~40 full comparisons per run (each one is O(entries))
+        cadence: (*rng.pick(&[2usize, 5, 10, 30, 100, 300])).max(n_ops / 40),
         seeks: 2 + rng.below(5) as u32,
         prefixes,
         sfx_len: if rng.chance(1, 2) { (0, 3) } else { (1, 8) },
